@@ -20,6 +20,7 @@ round trip (`Okane.C05.C05_entry`) is about the printer without precisions (`Oka
   signed zero, and every precision table within rust_decimal's scale range: the read-back tree satisfies `wfEntry` and
   `plainEntry`, prints (without precision) to exactly the text the importer prints (with precision), hence by
   `C05_entry` the entry parser reads exactly that text back as `readbackTxn prec t` and stops at the blank line.
+  (`Lemmas/ImportReadbackZero.lean` removes the signed-zero condition from the parse statement.)
 -/
 set_option linter.unusedSimpArgs false
 set_option linter.unusedSectionVars false
